@@ -9,7 +9,7 @@ HR = "vt.harness.c15_real"
 META = {
     "technique": "CrossHair (z3) symbolic execution of the real MetadorNode/MetadorGroup/MetadorDataset/WrappedAttributeManager/MetadorMeta guards with the three ACL flags as symbolic booleans: one-step induction over every navigation primitive and every mutating/reading member, recording raw objects",
     "explanation": "bounded symbolic execution of the real functions; exhaustive over all flag combinations per primitive; inductive over navigation chains of any length",
-    "bounds": {"quick": {"nav": "21 navigation primitives (incl. the upward members parent/file applied to every derived node, datasets too) x all flag combinations (restrict: all 64 combinations of old/new flags)",
+    "bounds": {"quick": {"nav": "22 navigation primitives (incl. the upward members parent/file applied to every derived node, datasets too) x all flag combinations (restrict: all 64 combinations of old/new flags)",
                           "mutate": "22 mutating members (group, dataset, attribute manager incl. MutableMapping mixins, metadata) on read_only nodes",
                           "skel": "14 reading members on skel_only nodes", "restrict_monotone": "all 512 flag triples",
                           "closure": "real container stack on the substrate (plain file and IH5 record with a patch boundary, reopened), 5 start nodes (root, groups at depth 1/2, datasets at depth 2/3) x 8 flag combinations (solver-chosen, realised), navigation chains of length <= 3 (thorough: 4) over parent/file/restrict/query(3 schemas)/values/items/getitem/get/require_group/visititems/absolute paths, then 20+ mutators and 10 readers on every node reached"}},
